@@ -536,7 +536,7 @@ class AliasWorld(WorldBase):
                     # a static frame converted from a grow-only one; the grow-only source stays with the caller and grows later
                     g = sf.FrameGO.from_items(zip(labels, cols), index=index_arg(nr, 0), name=name)
                     self.go_sources.append(g)
-                    how = route % 3
+                    how = (nr + nc) % 3  # independent of the route number (route % 14 == 9 never gave 1)
                     return (g.to_frame() if how == 0 else cls(g) if how == 1 else g.to_frame_he().to_frame()), 'Frame(from grow-only source)'
                 if r == 13:
                     # converted from a pandas DataFrame with nullable / string extension columns (to_numpy makes new buffers)
@@ -550,7 +550,7 @@ class AliasWorld(WorldBase):
                     import io
                     rows = max(1, nr)
                     text = ','.join(['ix'] + labels[:max(1, nc)]) + '\n' + ''.join(
-                        ','.join([ROWL[i % len(ROWL)]] + [str(10 * i + j) for j in range(max(1, nc))]) + '\n' for i in range(rows if route % 2 else 1))
+                        ','.join([ROWL[i % len(ROWL)]] + [str(10 * i + j) for j in range(max(1, nc))]) + '\n' for i in range(rows if (nr + nc) % 2 else 1))
                     if layout in ('2d', 'columns', 'view'):
                         return cls.from_csv(io.StringIO(text), index_depth=1, name=name), 'Frame.from_csv(text,index)'
                     return cls.from_tsv(io.StringIO(text.replace(',', '\t')), name=name), 'Frame.from_tsv(text)'
@@ -580,6 +580,9 @@ class AliasWorld(WorldBase):
                         kw['dtypes'] = {labels[-1]: sa.dtype[len(labels) - 1]}
                     if form.endswith('+index') and nc > 1:
                         kw['index_depth'] = 1
+                    if route % 3 == 0:
+                        kw['consolidate_blocks'] = True  # consolidation joins only neighbouring columns of one dtype: the others stay what they were
+                        form += '+consolidate'
                     return cls.from_structured_array(sa, name=name, **kw), f'Frame.from_structured_array({form})'
                 a = self._keep(self._mk_array(nr, dk, w, nc, 'strided'), 'Frame strided values')
                 v = a[:, ::2] if nc > 1 else a
